@@ -8,6 +8,7 @@
 -/
 import Proofs.Lemmas.HttpClient
 import Proofs.Lemmas.InprocAll
+import Proofs.Lemmas.HttpServerStream
 
 namespace InprocStream
 
@@ -164,3 +165,19 @@ theorem C01_http_response_complete (s : St) (h : Reachable true s) (hd : s.done 
   exact ⟨this.symm, hsaw⟩
 
 end HttpClientStream
+
+namespace HttpServerStream
+open InprocStream (HErr Reason Res codeOf)
+
+/-- **Request direction over HTTP**: the messages a client-streaming handler has been given are, at
+    every moment, a prefix of the decodable frames of the request body, in order. -/
+theorem C01_http_server_request_prefix (req : List ReqItem) (acts : List Act) (s : St) (rs : List Res)
+    (h : run (init true req) acts = some (s, rs)) (hcs : s.clientStreams = true) : msgsOf rs <+: dataOK req := by
+  obtain ⟨hi, _, _, hm⟩ := run_facts req acts (init true req) s rs (inv_init true req) h
+  simp only [init, List.nil_append] at hm
+  rw [← hm, hi.multi hcs]
+  obtain ⟨t, ht, _⟩ := hi.reqs
+  rw [ht, dataOK_append]
+  exact List.prefix_append _ _
+
+end HttpServerStream
